@@ -17,8 +17,16 @@ if go test -count=1 ./... >/tmp/confirm/$id.tests.log 2>&1; then t1=pass; else t
 demo=$(ls $src/demo_test.go 2>/dev/null)
 if [ -z "$demo" ]; then echo "RESULT $id: tests-with-change=$t1 (no demo_test.go: check manually)"; exit 0; fi
 pkg=$(grep -m1 '^package ' $demo | awk '{print $2}')
-case $pkg in html|html_test) dir=html;; exp|exp_test) dir=exp;; tpl|tpl_test) dir=.;; *) dir=.;; esac
+case $pkg in html|html_test) dir=html;; exp|exp_test) dir=exp;; tpl|tpl_test) dir=.;; main|main_test) dir=cmd/xtpl;; *) dir=.;; esac
 cp $demo $dir/zz_demo_test.go
+if [ $dir = cmd/xtpl ]; then
+  # cmd/xtpl is a module of its own: run the demo from inside it, with and without the change
+  if (cd $dir && go test -count=1 -run . . >/tmp/confirm/$id.demo_with.log 2>&1); then d1=pass; else d1=fail; fi
+  git apply -R $src/patch.diff
+  if (cd $dir && go test -count=1 -run . . >/tmp/confirm/$id.demo_without.log 2>&1); then d2=pass; else d2=fail; fi
+  echo "RESULT $id: existing-tests-with-change=$t1 demo-with-change=$d1 (race:-) demo-without-change=$d2 (race:-) [demo in $dir/]"
+  exit 0
+fi
 if go test -count=1 -run . ./$dir >/tmp/confirm/$id.demo_with.log 2>&1; then d1=pass; else d1=fail; fi
 if [ "$id" = "C15" ] || [ "$id" = "C18" ]; then if go test -race -count=1 ./$dir >/tmp/confirm/$id.demo_with_race.log 2>&1; then d1r=pass; else d1r=fail; fi; else d1r=-; fi
 git apply -R $src/patch.diff
